@@ -93,6 +93,9 @@ int main(int argc, char** argv) {
         for (auto& x : head.at("docs").a) ids.addDocument(nat ? nat->parse(x.s) : xer->parse(x.s));
 
         MemoryManager& mm = XalanMemMgrs::getDefaultXercesMemMgr();
+        // ONE object factory for all cases of the run, as in a transformation: value objects released by one evaluation are recycled
+        // by the next (a recycled object must not remember anything of its previous life)
+        XObjectFactoryDefault factory;
         for (size_t li = 1; li < lines.size(); ++li) {
             J c = parseJson(lines[li]);
             budget(20);
@@ -101,7 +104,6 @@ int main(int argc, char** argv) {
             std::string out = "{\"e\":\"Res\",\"id\":" + std::to_string(id);
             try {
                 XPathEnvSupportDefault env;
-                XObjectFactoryDefault factory;
                 VarCtx ctx(env, *support, factory);
                 XPathConstructionContextDefault cctx;
                 MapResolver res;
